@@ -83,6 +83,8 @@ def input_trees(r):
     # a `**` pattern over a tree in which symbolic links lead back to their own directory: every combination of the links is a path
     out["glob-doublestar-over-self-links"] = ([D("g"), F("g/a.txt", 10, 1), D("g/sub"), F("g/sub/b.txt", 10, 2), {"p": "g/l1", "k": "l", "target": "."}, {"p": "g/l2", "k": "l", "target": "."},
                                                {"p": "g/sub/l3", "k": "l", "target": ".."}, D("dst")], ["--glob", "g/**/*.txt", "dst"])
+    out["glob-doublestar-over-self-links-no-match"] = ([D("g"), F("g/a.txt", 10, 1), D("g/sub"), F("g/sub/b.txt", 10, 2), {"p": "g/l1", "k": "l", "target": "."}, {"p": "g/l2", "k": "l", "target": "."},
+                                                        F("other.txt", 5, 3), D("dst")], ["--glob", "g/**/zzz", "other.txt", "dst"])
     out["block-device"] = ([D("src")] + [F("src/f%d" % i, 100, i + 1) for i in range(20)] + [{"p": "src/zblk", "k": "blk", "rdev": [7, 99]}], ["-r", "src", "dst"])
     # every worker dies early (failure on the special-file path sends no Error update) while hundreds of operations remain to be queued
     lots = [D("src2")] + [F("src2/f%03d" % i, 10, i + 1) for i in range(400)]
@@ -101,7 +103,7 @@ def gen_cases(tier, seed):
         for driver in ("parfile", "parblock"):
             for w in ([1, 4, 64, 0] if tier == "quick" else [1, 2, 3, 7, 16, 64, 0, 200]):
                 for si, sch in enumerate(SCHEDS):
-                    if name == "glob-doublestar-over-self-links":
+                    if name.startswith("glob-doublestar-over-self-links"):
                         if not (w == 1 and si < (1 if tier == "quick" else 3)):
                             continue      # (the expansion happens before any thread is started: one schedule tells it all)
                     elif tier == "quick" and (si + w) % 3 and name not in ("gitignore-fifo",):
@@ -109,7 +111,7 @@ def gen_cases(tier, seed):
                     for rep in range(reps):
                         p = dict(sch)
                         p["sched_seed"] = r.randrange(1 << 30)
-                        if name == "glob-doublestar-over-self-links":
+                        if name.startswith("glob-doublestar-over-self-links"):
                             p["max_steps"] = 150000      # (an ordinary expansion of this tree takes a few hundred calls)
                         noise = r.choice([[], [], [], ["--no-progress"], ["-v"], ["-vv"], ["--fsync"], ["--backup", "numbered"], ["--reflink", "never"]])
                         yield {"family": "A", "name": name, "spec": spec, "args": ["--driver", driver, "-w", str(w)] + noise + args, "driver": driver,
